@@ -54,6 +54,9 @@ type Op struct {
 	// submit and next: the CrashAt-th durable op of this call is not applied and the process dies
 	// (0 = no crash; if the call performs fewer durable ops the process dies right after the call).
 	CrashAt int `json:"crash_at,omitempty"`
+	// restart only: the first ReadFaults queries of the datastore during start-up fail with an I/O error
+	// (a read fault changes nothing on disk). A start that is refused is simply tried again.
+	ReadFaults int `json:"read_faults,omitempty"`
 }
 
 type Scenario struct {
@@ -147,6 +150,9 @@ func genOp(t *rapid.T, chain []byte, faults bool) Op {
 		}
 	default:
 		op.Kind = "restart"
+		if faults && rapid.IntRange(0, 3).Draw(t, "readfault") == 0 {
+			op.ReadFaults = rapid.IntRange(1, 2).Draw(t, "readfaults")
+		}
 	}
 	if faults && op.Kind != "restart" && !op.PutErr && rapid.IntRange(0, 7).Draw(t, "crash") == 0 {
 		// mostly the first durable op of the call (the only one of the pinned implementation)
@@ -298,7 +304,10 @@ func (w *wld) minLen() int {
 // reboot ends the current process life (clean restart, or crash: the datastore is dead and the
 // next life starts from its image) and starts a new sequencer. A crash inside the start-up
 // itself is survived by starting again.
-func (w *wld) reboot(why string) *world.Verdict {
+func (w *wld) reboot(why string) *world.Verdict { return w.rebootFaulty(why, 0) }
+
+func (w *wld) rebootFaulty(why string, readFaults int) *world.Verdict {
+	defer func() { w.d.FailQueries(0) }()
 	if w.minLen() >= 2 {
 		w.nt = true
 		w.labels["restart-with>=2-queued"] = true
@@ -311,7 +320,17 @@ func (w *wld) reboot(why string) *world.Verdict {
 			w.d.QueryOrder = w.sc.QueryOrder
 		}
 		var err error
+		if attempt == 0 && readFaults > 0 {
+			w.d.FailQueries(readFaults)
+			w.labels["read-fault-during-startup"] = true
+		}
 		pan, crashed := guarded(func() { err = w.open() })
+		if err != nil && readFaults > 0 && attempt < 4 && pan == nil && !crashed {
+			// refused to start on a store it could not read: the operator (or supervisor) starts it again
+			w.labels["start-refused-on-read-fault"] = true
+			w.d.FailQueries(0)
+			continue
+		}
 		if crashed && attempt < 4 {
 			w.labels["crash-during-startup"] = true
 			continue
@@ -724,7 +743,7 @@ func runHistory(sc Scenario, globalCrash int) (world.Verdict, int) {
 		case "next":
 			v = w.next(i, op, fmt.Sprintf("op %d (next)", i))
 		case "restart":
-			v = w.reboot("restart-op")
+			v = w.rebootFaulty("restart-op", op.ReadFaults)
 		}
 		if v != nil {
 			return *v, 0
